@@ -16,7 +16,6 @@ Section H.
 Variable sigma : oracle.
 Variable i : inst.
 Hypothesis Hnn : inst_nonneg_b i = true.
-Hypothesis Hflex : flex_post_b i = true.
 
 Lemma HOLD_frame x x' : HOLD x -> (forall t, tview x' t = tview x t) -> HOLD x'.
 Proof. intros A H t st l loc jb j Hp. rewrite H in Hp. eauto. Qed.
@@ -107,21 +106,23 @@ Theorem JH_apply x tr R x' :
   NO x -> JH x -> Q (tr :: R) x -> is_transition_valid x tr = Ok true -> apply_transition sigma i x tr = Ok x' ->
   JH x' /\ Q R x' /\ side2 tr x' = true.
 Proof.
-  intros N [Hj Hd] HQ Hv Ha. destruct (J_apply sigma i Hnn Hflex _ _ _ _ N Hj HQ Hv Ha) as [Hj' [HQ' S]].
-  split; [split; auto|auto]. destruct Hj as [_ [[_ [A _]] _]]. destruct HQ as [_ HP].
+  intros N [Hj Hd] HQ Hv Ha. destruct (J_apply sigma i Hnn _ _ _ _ N Hj HQ Hv Ha) as [Hj' [HQ' S]].
+  split; [split; auto|auto]. destruct Hj as [_ [[_ [A _]] _]]. destruct HQ as [_ [HP _]].
   eapply apply_preserves_HOLD; eauto. apply HP. left; reflexivity.
 Qed.
 
 Lemma JH_now x t : JH x -> (s_now x <= t)%Z -> JH (set_now x t).
 Proof. intros [Hj Hd] H. split; [apply J_now; auto|apply HOLD_set_now; auto]. Qed.
 
-Lemma QH_timed x timed poss tele : NO x -> JH x -> create_timed_transitions i x = Ok timed ->
+Lemma QH_timed x timed poss tele : NO x -> JH x -> BI x -> create_timed_transitions i x = Ok timed ->
   get_possible_transitions i x = Ok poss -> filter_teleport i x poss = Ok tele -> Q (timed ++ tele) x.
 Proof. intros N [Hj _]. apply (Q_timed i); auto. Qed.
-Lemma QH_timed0 x timed : NO x -> JH x -> create_timed_transitions i x = Ok timed -> Q timed x.
+Lemma QH_timed0 x timed : NO x -> JH x -> BI x -> create_timed_transitions i x = Ok timed -> Q timed x.
 Proof. intros N [Hj _]. apply (Q_timed0 i); auto. Qed.
-Lemma QH_offer x o : JH x -> not_transit o -> Q [o] x.
+Lemma QH_offer x o : JH x -> BI x -> create_timed_transitions i x = Ok [] -> offer_shape o -> Q [o] x.
 Proof. intros [Hj _]. apply (Q_offer i); auto. Qed.
+Lemma EH_end x : JH x -> Q [] x -> BI x.
+Proof. intros [Hj _]. apply (BI_end i); auto. Qed.
 
 (* agv_hold_b from the invariants *)
 Lemma JH_agv_hold_b x : NO x -> JH x -> agv_hold_b x = true.
@@ -146,13 +147,13 @@ Proof.
   destruct (b_store (t_buf ts)); [destruct Hin|discriminate].
 Qed.
 
-Theorem flex_agv_hold fuel x0 joker0 ta r m :
+Theorem run_agv_hold fuel x0 joker0 ta r m :
   clock_b x0 = true -> wfs_b i x0 = true -> fresh2_b i x0 = true -> nodep_b x0 = true ->
   reach sigma i fuel x0 joker0 ta r m -> agv_hold_b (r_x r) = true.
 Proof.
   intros C W Fr Dn H. apply NO_iff_clock_b in C.
   assert (J0 : JH x0) by (split; [apply J_init; auto|apply fresh2_HOLD; auto]).
-  destruct (reach_reachG sigma i Hnn JH Q side2 (fun _ => not_transit) JH_apply JH_now QH_timed QH_timed0 QH_offer (offers_not_transit i) _ _ _ _ _ _ C J0 H) as [_ [_ [xq [Nq [Jq [E|[_ [z E]]]]]]]]; rewrite E.
+  destruct (reach_reachG sigma i Hnn JH Q side2 (fun _ => offer_shape) BI JH_apply JH_now EH_end BI_now QH_timed QH_timed0 QH_offer (offers_shape' i) _ _ _ _ _ _ C J0 (BI_init _ Dn) H) as [_ [_ [xq [Nq [Jq [E|[_ [z E]]]]]]]]; rewrite E.
   - apply JH_agv_hold_b; auto.
   - exact (JH_agv_hold_b _ Nq Jq).
 Qed.
